@@ -295,23 +295,52 @@ func loadProgram(repoDir, pkgPattern, extDir string) (*Program, error) {
 		if i := strings.Index(parentKey, "$"); i >= 0 {
 			parentKey = parentKey[:i]
 		}
+		// A contract whose function, closure or loop no longer exists in the code (a helper was
+		// inlined or replaced, a loop was removed) breaks only that contract: its invariants are
+		// neutralised and marked, the function (and whatever relies on its contract) is reported,
+		// every other function is still verified.
+		breakInvs := func(msg string) error {
+			for _, cl := range c.Invs {
+				cl.Broken = msg
+				cl.Text = "true"
+				if err := emitClause(c, cl, append([]ArgDesc{}, base...)); err != nil {
+					return err
+				}
+			}
+			return nil
+		}
 		fd := declByKey[parentKey]
-		if fd == nil {
-			return nil, fmt.Errorf("%s: no declaration found for %s", c.Src, parentKey)
+		if fd == nil || fd.Body == nil {
+			if err := breakInvs(fmt.Sprintf("no declaration found for %s", parentKey)); err != nil {
+				return nil, err
+			}
+			continue
 		}
 		var body *ast.BlockStmt = fd.Body
 		if c.Closure > 0 {
 			lit := nthFuncLit(fd.Body, c.Closure)
 			if lit == nil {
-				return nil, fmt.Errorf("%s: closure #%d not found in %s", c.Src, c.Closure, parentKey)
+				if err := breakInvs(fmt.Sprintf("closure #%d not found in %s", c.Closure, parentKey)); err != nil {
+					return nil, err
+				}
+				continue
 			}
 			body = lit.Body
 		}
 		loops := loopsOf(body)
+		badLoop := ""
 		for _, cl := range c.Invs {
 			if cl.Loop < 1 || cl.Loop > len(loops) {
-				return nil, fmt.Errorf("%s: loop %d does not exist (function has %d loops)", cl.Src, cl.Loop, len(loops))
+				badLoop = fmt.Sprintf("loop %d does not exist (function has %d loops)", cl.Loop, len(loops))
 			}
+		}
+		if badLoop != "" {
+			if err := breakInvs(badLoop); err != nil {
+				return nil, err
+			}
+			continue
+		}
+		for _, cl := range c.Invs {
 			g, err := rewriteClause(cl.Text)
 			if err != nil {
 				return nil, fmt.Errorf("%s: %v", cl.Src, err)
